@@ -75,8 +75,8 @@ type cfgBuilder struct {
 }
 
 type target struct {
-	label       string
-	brk, cont   *Block
+	label        string
+	brk, cont    *Block
 	fallthrough_ *Block
 }
 
